@@ -1,6 +1,6 @@
 #!/bin/bash
 # runs every quick check once and prints its summary line
-cd /verif
+cd "$(dirname "$0")"
 for p in C01 C02 C03 C04 C05 C06 C07 C08 C09 C10 C11 C12 C13 C14 C15 C16 C17 C18 C19 C20; do
   ./check $p --tier ${1:-quick} 2>&1 | grep -E "^\[C|VIOLATION|KNOWN|MACHINERY" | head -5
 done
